@@ -317,7 +317,7 @@ pub fn run(r: &mut Runner) -> &'static str {
     r.rule = "A (differential): valid-UTF-8 strings - valid lines +- trailer, one-step mutants, token sequences, random text, and strings whose first CR is followed / preceded by a 2/3/4-byte character - through try_from(&str), \
               try_from(&[u8]), parse::<Header>, parse::<Addresses>: if the byte after the first CR starts a multi-byte character all four must return an error; otherwise the same header+addresses or the same ParseError \
               (bytes: Parse(e) <-> e). B (owned copies): accepted v1 / v2 headers and decoded TLVs: to_owned() == original both ways, equal views, Cow::Owned, and unchanged after the source buffer is overwritten, freed and the allocator churned. \
-              non-trivial = (A) strings starting with PROXY or in the multi-byte class, (B) every input from which something was parsed; distinct by SipHash"
+              non-trivial = (A) strings starting with PROXY or in the multi-byte class, (B) every input from which something was parsed; distinct by SipHash Added later: chains, clone_from copies (also onto a header with the same addresses under another spelling), != as well as ==, control bytes next to CR/LF/SP in value."
         .into();
     r.assumptions.push("B's 'remains valid after the buffer is dropped' is also guaranteed by the type system in a crate without unsafe; the check exercises it all the same".into());
     let n = r.n(300_000, 8_000_000);
